@@ -267,7 +267,7 @@ class Ctx:
         path = os.path.join(d, "%s.json" % h)
         with open(path, "w") as f:
             json.dump({"property": self.prop, "what": what, "signature": signature, "payload": payload}, f, indent=1)
-        if len(self.violations) < 20:
+        if len(self.violations) < 6:
             print("VIOLATION property=%s replay=%s" % (self.prop, path), flush=True)
             print("  what: %s" % what[:1500], flush=True)
         self.violations.append(path)
